@@ -36,7 +36,8 @@ def c14(ctx):
     wide = C(Acts='{"init", "restart", "util", "sess", "pin", "obj"}', MaxH="2", MaxObj="2" if quick else "3",
              PinSyms='{"A", "B"}', NewPins='{"A", "B"}', AsciiPins='{"U1"}', Labs='{"L1"}',
              MaxTok="2" if quick else "3")
-    res, _ = pipeline.model_check(ctx, "MC_Tok", "c14-wide", wide, invariants=INV, properties=PROPS, timeout=3000)
+    res, _ = pipeline.model_check(ctx, "MC_Tok", "c14-wide", wide, invariants=INV, properties=PROPS, timeout=3000,
+                                  view="ViewNoLow")
     obs = ["live", "fresh", "pins", "objs"]
     c1 = C()
     c2 = C(Acts='{"init", "util", "sess", "obj"}', PinSyms='{"U1", "B"}', NewPins='{"U1"}', AsciiPins='{"U1", "U2"}',
@@ -48,6 +49,10 @@ def c14(ctx):
         dict(name="c14-util", constants=c2, trace_constants=T(c2, obs), driver_args=[lib, util, "file", "U1,U2,B"]),
         dict(name="c14-iso", constants=c3, trace_constants=T(c3, obs), driver_args=[lib, util, "file", "A,B"]),
     ]
+    if quick:
+        # the PIN status flags multiply the states: the quick tier replays a bounded number of walks per graph
+        for g in graphs:
+            g["maxwalks"] = 1500
     if not quick:
         c4 = C(MaxTok="3", Acts='{"init", "restart", "util", "sess", "obj"}', MaxH="1", MaxObj="2", Labs='{"L1"}',
                PinSyms='{"U1", "B"}', NewPins='{"U1"}')
@@ -76,7 +81,8 @@ def c04(ctx):
     near = '{"A", "B", "Apre", "Aext", "Aflip", "Anul"}'
     wide = C(MaxTok="1", Acts='{"init", "restart", "sess", "pin", "obj"}', MaxH="2", MaxObj="1",
              PinSyms='{"A", "B", "C", "Apre"}', NewPins='{"A", "B", "C", "short", "long"}', Labs='{"L1"}')
-    res, _ = pipeline.model_check(ctx, "MC_Tok", "c04-wide", wide, invariants=INV, properties=PROPS, timeout=3000)
+    res, _ = pipeline.model_check(ctx, "MC_Tok", "c04-wide", wide, invariants=INV, properties=PROPS, timeout=3000,
+                                  view="ViewNoLow")
     obs = ["live", "fresh", "pins", "objs"]
     allpins = "A,B,C,Apre,Aext,Aflip,Anul,short,long,empty"
     c1 = C(MaxTok="1", Acts='{"init", "restart", "sess", "pin", "obj"}', MaxH="2", MaxObj="1",
@@ -88,6 +94,9 @@ def c04(ctx):
         dict(name="c04-near", constants=c2, trace_constants=T(c2, obs), driver_args=[lib, util, "file", allpins],
              variants=[("-k%d" % i, [], 1000 * i) for i in range(3 if quick else 50)]),
     ]
+    if quick:
+        for g in graphs:
+            g["maxwalks"] = 1500
     if not quick:
         graphs.append(dict(name="c04-hist-db", constants=c1, trace_constants=T(c1, obs),
                            driver_args=[lib, util, "db", allpins]))
